@@ -43,7 +43,8 @@ Record arb := mkArb {
   alog : list ev;         (* tasks started on this arbiter, oldest first *)
   a_thr : nat;            (* identity of its thread *)
   a_sys : nat;            (* id of the System installed in its thread-local *)
-  a_pre : bool            (* ghost: created before any Exit was issued *)
+  a_pre : bool;           (* ghost: created before any Exit was issued *)
+  hist : list cmd         (* ghost: every command ever enqueued, in channel order *)
 }.
 
 (* script operations, executed in order by the coordinator; tid of a spawned task = position of its op *)
@@ -87,10 +88,10 @@ Fixpoint upd {A} (k : nat) (f : A -> A) (l : list A) : list A :=
 Definition is_dropped (p : phase) : bool := match p with Dropped => true | _ => false end.
 Definition is_running (p : phase) : bool := match p with Running => true | _ => false end.
 
-Definition set_chan (a : arb) (c : list cmd) : arb := mkArb c (lq a) (ph a) (alog a) (a_thr a) (a_sys a) (a_pre a).
-
 (* UnboundedSender::send: Ok (and enqueued) iff the receiver still exists *)
-Definition push (c : cmd) (a : arb) : arb := if is_dropped (ph a) then a else set_chan a (chan a ++ [c]).
+Definition push (c : cmd) (a : arb) : arb :=
+  if is_dropped (ph a) then a
+  else mkArb (chan a ++ [c]) (lq a) (ph a) (alog a) (a_thr a) (a_sys a) (a_pre a) (hist a ++ [c]).
 Definition rx_alive (k : nat) (l : list arb) : bool :=
   match nth_error l k with Some a => negb (is_dropped (ph a)) | None => false end.
 
@@ -143,7 +144,7 @@ Definition coord (s : st) : st :=
            sent, ready hand-shake: all before `new` returns *)
         let id := length (arbs s) in
         with_op s RUnit ops'
-          (arbs s ++ [mkArb [] [] Running [] (2 + id) 0 (negb (issued s))])
+          (arbs s ++ [mkArb [] [] Running [] (2 + id) 0 (negb (issued s)) []])
           (sys_send (Register id) s) (issued s)
     | OSpawn k kd => send_op s ops' k (Execute (mkTask (pc s) kd))
     | OStop k => send_op s ops' k Stop
@@ -163,15 +164,15 @@ Definition set_arbs (s : st) (l : list arb) : st :=
    LocalSet is dropped with the thread's runtime), Execute => spawn_local *)
 Definition runner (a : arb) : arb :=
   match ph a, chan a with
-  | Running, Stop :: c => mkArb c (lq a) Ended (alog a) (a_thr a) (a_sys a) (a_pre a)
-  | Running, Execute t :: c => mkArb c (lq a ++ [t]) Running (alog a) (a_thr a) (a_sys a) (a_pre a)
+  | Running, Stop :: c => mkArb c (lq a) Ended (alog a) (a_thr a) (a_sys a) (a_pre a) (hist a)
+  | Running, Execute t :: c => mkArb c (lq a ++ [t]) Running (alog a) (a_thr a) (a_sys a) (a_pre a) (hist a)
   | _, _ => a
   end.
 
 (* the LocalSet starts the oldest spawned task; it reads the thread-locals and logs *)
 Definition start_task (a : arb) : arb :=
   match ph a, lq a with
-  | Running, t :: q => mkArb (chan a) q Running (alog a ++ [mkEv (tid t) (a_thr a) (a_sys a)]) (a_thr a) (a_sys a) (a_pre a)
+  | Running, t :: q => mkArb (chan a) q Running (alog a ++ [mkEv (tid t) (a_thr a) (a_sys a)]) (a_thr a) (a_sys a) (a_pre a) (hist a)
   | _, _ => a
   end.
 
@@ -214,7 +215,7 @@ Definition sys_ret (s : st) : st :=
   end.
 
 (* the arbiter thread leaves block_on: receiver dropped, DeregisterArbiter sent, thread finishes *)
-Definition drop_arb (a : arb) : arb := mkArb (chan a) (lq a) Dropped (alog a) (a_thr a) (a_sys a) (a_pre a).
+Definition drop_arb (a : arb) : arb := mkArb (chan a) (lq a) Dropped (alog a) (a_thr a) (a_sys a) (a_pre a) (hist a).
 Definition drop_step (s : st) (k : nat) : st :=
   match nth_error (arbs s) k with
   | Some a => match ph a with
